@@ -34,7 +34,7 @@ def classify(mech, case, got, ref):
 
 
 def classify_js_only(mech, case, got, ref):
-    return classify(mech, case, got, ref) if mech == 'rows-differ' else None
+    return common.classify_known_js(mech, case, got, ref)
 
 
 def gen_base(rng, i):
